@@ -1,5 +1,5 @@
 """Property -> rules mapping."""
-from .rules import cfg, det, errsel, fmtdec, fmtparse, hdr, hyg, idx, rawid
+from .rules import cfg, det, errsel, fmtdec, fmtparse, hdr, hyg, idx, ops, rawid
 
 PROPS = {}
 
@@ -95,3 +95,5 @@ prop("C04", [fmtdec.rule_guard_use, fmtdec.rule_traversal, fmtdec.rule_lookup_ag
 prop("C07", [fmtdec.rule_shared_reject, fmtdec.rule_shared_decision, fmtdec.rule_lookup_agreement], meta={"explanation": "wip"})
 
 prop("C09", [idx.rule_idx_space, errsel.rule_view_defs, errsel.rule_error_selection], meta={"explanation": "wip"})
+
+prop("C10", [ops.rule_tpl_role, ops.rule_unary, ops.rule_method_names], meta={"explanation": "wip"})
